@@ -64,8 +64,23 @@ SameState(a, b) == /\ obj[a].lgK = obj[b].lgK /\ Class(obj[a].mode) = Class(obj[
 \* ... and were fed in the same order, starting from the same kind of representation
 SameOrder(a, b) == SameState(a, b) /\ hist[a] = hist[b] /\ obj[a].full = obj[b].full
 
+\* published relative standard error in ppm for lg_k 4..21: 0.8325546 / sqrt(k) for the in-order (HIP) estimate, 1.03896 / sqrt(k)
+\* for the composite estimate of an out-of-order sketch (hll.hpp / HllUtil.hpp documentation constants)
+RsePpmHip == <<208139, 147176, 104069, 73588, 52035, 36794, 26017, 18397, 13009, 9199, 6504, 4599, 3252, 2300, 1626, 1150, 813, 575>>
+RsePpmNonHip == <<259740, 183664, 129870, 91832, 64935, 45916, 32468, 22958, 16234, 11479, 8117, 5739, 4058, 2870, 2029, 1435, 1015, 717>>
+RsePpm(lgK, ooo) == IF ooo THEN RsePpmNonHip[lgK - 3] ELSE RsePpmHip[lgK - 3]
+\* HLL mode: the relative half-widths of the sd-sigma bounds (r.ubW / r.lbW in ppm of the estimate) lie within a factor [1/2, 2] of
+\* sd * RSE(lg_k) - every row of the bounds tables (lg_k x in-order / out-of-order x lb / ub x sd): sign flips and gross typos.
+\* A lower bound clipped at the number of non-zero slots is only required not to be too wide.
+WidthOK(r, lgK, retained) ==
+  \A k \in 1..3 : LET w == k * RsePpm(lgK, r.ooo) IN
+    /\ 2 * r.ubW[k] >= w /\ r.ubW[k] <= 2 * w
+    /\ r.lbW[k] <= 2 * w /\ (r.lbF[k] > retained + 1 => 2 * r.lbW[k] >= w)
 \* C06(a) on one projection r of a sketch whose contract state is o
 BoundsOK(r, o) ==
+  \* C03 itself: lower bound <= estimate <= upper bound for 1..3 standard deviations
+  /\ ChkS("bounds-bracket-estimate", \A k \in 1..3 : r.lb[k] <= r.est /\ r.est <= r.ub[k])
+  /\ Chk("C06:bound-width", (r.cmode = HLL /\ r.estF > 0) => WidthOK(r, o.lgK, NonZero(o)))
   /\ Chk("C06:bounds", /\ r.lb[3] <= r.lb[2] /\ r.lb[2] <= r.lb[1] /\ r.lb[1] <= r.est
                        /\ r.est <= r.ub[1] /\ r.ub[1] <= r.ub[2] /\ r.ub[2] <= r.ub[3])
   /\ LET retained == IF r.cmode = HLL THEN NonZero(o) ELSE Cardinality(o.fed) IN
